@@ -3,7 +3,7 @@ import re
 import z3
 from ..engine import AND, OR, NOT, Clo, Ref
 from ..types import STRSLICE
-from ..values import is_variant, payload, St, Sc, bv, mk_variant, fresh
+from ..values import Opq, is_variant, payload, St, Sc, bv, mk_variant, fresh
 from .. import replay as rp
 from .. import stubs
 
@@ -152,10 +152,55 @@ def number_group(s):
         parsed['r'] = v
         return v
     e.stubs.append((re.compile(r'^core::str::<impl str>::parse::<u64>$'), str_parse))
-    body = [b for nm, bl in e.bodies.items() for b in bl if nm.endswith('number::{closure#0}')][0]
+    # the closure of `number` that receives the digit slice; its captured environment (possibly other closures) is rebuilt from the
+    # types of the captures it reads, with every captured &str being the start-of-component slice `copied`
+    cands = [b for nm, bl in e.bodies.items() for b in bl if re.search(r'(^|::)number::\{closure#\d+\}$', nm)
+             and len(b.args) == 2 and re.match(r"^&(?:'\w+ )?str$", b.locals.get(b.args[1], ''))]
     copied, raw = fresh(STRSLICE, 'copied'), fresh(STRSLICE, 'raw')
-    r = h.call(body, Clo('number', [copied]), raw)
-    pr = parsed['r']
+
+    def synth(body, depth=0):
+        span = re.search(r'\{closure@([^}]*)\}', body.locals[body.args[0]]).group(1)
+        caps = {}
+
+        def walk(x):
+            if isinstance(x, tuple):
+                if len(x) == 4 and x[0] == 'field':
+                    base = x[1]
+                    while base[0] == 'deref':
+                        base = base[1]
+                    if base == ('local', body.args[0]):
+                        caps[x[2]] = x[3]
+                for y in x:
+                    walk(y)
+            elif isinstance(x, list):
+                for y in x:
+                    walk(y)
+        for blk in body.blocks.values():
+            walk(blk.stmts)
+            walk(blk.term)
+        vals = []
+        for i in range(max(caps) + 1 if caps else 0):
+            ty = caps.get(i)
+            mm = re.search(r'\{closure@([^}]*)\}', ty or '')
+            if ty is None:
+                vals.append(Opq('capture not read'))
+            elif mm and depth < 4:
+                vals.append(synth(e.closure_body(mm.group(1)), depth + 1))
+            elif re.match(r"^&(?:'\w+ )?(?:&(?:'\w+ )?)?str$", ty):
+                vals.append(copied)
+            else:
+                vals.append(fresh(e.ty(ty), 'cap%d' % i))
+        return Clo(span, vals)
+    if not cands:
+        s.add(ob='number: the closure receiving the digit slice found in the MIR', mode='syntactic', solver_s=0.0, kind='prove', verdict='inconclusive',
+              detail='no closure of `number` taking &str: the integer step is not where the check expects it')
+        return
+    r = h.call(cands[0], synth(cands[0]), raw)
+    pr = parsed.get('r')
+    if pr is None:
+        s.add(ob='number: str::parse::<u64> produces the component value', mode='syntactic', solver_s=0.0, kind='prove', verdict='inconclusive',
+              detail='the digit-slice closure of `number` does not call str::parse::<u64>')
+        return
     val = payload(pr, 'Ok')[0].t
     err = payload(r, 'Err')[0]
     kind = payload(err.fs[err.ty.index('kind')], 'Some')[0]
